@@ -8,7 +8,7 @@ import vlib, gen, gen_implements
 THROWS = ['SP', 'DT', 'HT', 'JT', 'WT']
 LIB_LABELS = ['U9', 'U11', 'U13', 'U15', 'U17', 'U20', 'U23', 'SEN'] + ['V%02d' % a for a in range(35, 155, 5)]
 OTHER = ['U14', 'U16', 'U18', 'V30', 'XYZ', '', 'v50', 'V5', 'V999', 'V100 ', 'VET', 'V07', 'V', 'V0100', 'W50', 'V9', 'V95', 'V96', 'V099']
-THEOREMS = ['C17_leaves', 'C17_passthrough', 'C17_code_shape', 'C17_masters_mono', 'C17_codes_valid', 'C17_codes_in_language', 'C17_table_keys']
+THEOREMS = ['C17_leaves', 'C17_passthrough', 'C17_code_shape', 'C17_code_generic_when_no_weight', 'C17_code_total', 'C17_masters_mono', 'C17_codes_valid', 'C17_codes_in_language', 'C17_table_keys']
 
 def cps(s): return ' '.join(str(ord(c)) for c in s)
 
@@ -18,7 +18,7 @@ def run(ctx):
                 'distinct = distinct (event, gender, label) triples and keys; non-trivial = a weight is tabulated / the key is a key of a live table')
     ctx.trusted += ['tools/gen_implements.py (Python ast of get_implement_weight -> ordered rules; live table keys), cross-checked exhaustively against the live function on the finite domain']
     ctx.assumptions += ['labels are ASCII (str.isdigit / int() on non-ASCII digits are not modelled)',
-                        'where no weight is tabulated get_specific_event_code raises ValueError: observed, not demanded']
+                        'where no weight is tabulated (under-13 labels, unknown labels) get_specific_event_code hands back the generic code (repaired: it used to raise ValueError, which this check had recorded as "observed, not demanded")']
     try:
         f1, info = gen_implements.generate(vlib.REPO, vlib.GEN)
         f2, keys = gen_implements.generate_keys(vlib.REPO, vlib.GEN)
@@ -92,7 +92,13 @@ def run(ctx):
                         if prev is not None and float(w) > float(prev[1]):
                             fail('athlib.get_implement_weight', [ev, g, ag], 'not heavier than %s for %s' % (prev[1], prev[0]), w, 'masters implement gets heavier with age')
                         prev = (ag, w)
-                if not w: continue
+                if not w:
+                    # no implement tabulated for this label: the builder still answers — with the generic code (a valid throws code)
+                    try: code = athlib.get_specific_event_code(ev, g, ag)
+                    except Exception as e: code = 'raises ' + type(e).__name__
+                    if code != ev:
+                        fail('athlib.get_specific_event_code', [ev, g, ag], '%s (no implement is tabulated for this label: the generic code)' % ev, code, 'no weight tabulated: the builder does not hand back the generic code')
+                    continue
                 nont += 1
                 try:
                     code = athlib.get_specific_event_code(ev, g, ag)
